@@ -1,4 +1,5 @@
 import Resgate.Proofs.GwPure
+import Resgate.Proofs.Direct
 import Resgate.Generated.Tables
 
 /-
@@ -28,5 +29,27 @@ example : unsubVerdict false 2 (some 2) = .ok := by decide
 example : unsubVerdict false 3 (some 2) = .noSubscription := by decide
 example : unsubVerdict false 0 (some 2) = .invalidParams := by decide
 example : addDirect 256 256 = none := by decide
+
+/-! ### The counter as a machine over the model's own decision functions -/
+
+/-- Each step of the gateway's direct-count bookkeeping (`addDirect`, `unsubVerdict`, the reset by an
+    unsubscribe event) is the step of a plain counter: +1 below the limit, −count for an
+    unsubscribe request with `0 < count ≤ n`, 0 after an unsubscribe event; every other request is
+    refused with the stated error. -/
+theorem direct_count_refines_counter (limit d : Int) (op : Direct.Op) :
+    Direct.step limit d op = Direct.spec limit d op :=
+  Direct.step_eq_spec limit d op
+
+/-- For every sequence of subscribes, unsubscribe requests (any count, any parameters) and
+    unsubscribe events, the count stays within `0..limit`. -/
+theorem direct_count_bounds (limit : Int) (hl : 0 ≤ limit) (ops : List Direct.Op) :
+    0 ≤ (Direct.run limit 0 ops).1 ∧ (Direct.run limit 0 ops).1 ≤ limit :=
+  Direct.bounds limit hl ops 0 (Int.le_refl 0) hl
+
+/-- A refused request leaves the count unchanged. -/
+theorem refused_request_leaves_nothing (limit d : Int) (op : Direct.Op)
+    (h : (Direct.step limit d op).2 = .limitExceeded ∨ (Direct.step limit d op).2 = .invalidParams ∨
+         (Direct.step limit d op).2 = .noSubscription) : (Direct.step limit d op).1 = d :=
+  Direct.refused_leaves_nothing limit d op h
 
 end Resgate.C08
